@@ -1,35 +1,708 @@
+// Harness for C39: pdfcpu's name tree (pkg/pdfcpu/model/nameTree.go) against the
+// extracted Coq model, step by step over random edit histories, plus the direct
+// oracle: after every step the real structure must have strictly sorted unique keys,
+// exact limits on every node, and agree with a Go map; finally a write/read round trip.
 package main
 
 import (
+	"bytes"
 	"fmt"
+	"os"
+	"runtime/debug"
+	"sort"
+	"strings"
 
+	"github.com/pdfcpu/pdfcpu/pkg/api"
+	"github.com/pdfcpu/pdfcpu/pkg/pdfcpu"
 	"github.com/pdfcpu/pdfcpu/pkg/pdfcpu/model"
 	"github.com/pdfcpu/pdfcpu/pkg/pdfcpu/types"
+	"verif/vh"
 )
 
-func try(f func()) {
-	defer func() {
-		if e := recover(); e != nil {
-			fmt.Println("PANIC:", e)
+type kv struct {
+	k string
+	v int
+}
+
+// entries of ONE leaf node (Names has an unexported element type; Process on a leaf visits exactly its Names).
+func leafEntries(n *model.Node) []kv {
+	var out []kv
+	_ = n.Process(nil, func(_ *model.XRefTable, k string, o *types.Object) error {
+		out = append(out, kv{k, objVal(*o)})
+		return nil
+	})
+	return out
+}
+
+func objVal(o types.Object) int {
+	switch x := o.(type) {
+	case types.Integer:
+		return x.Value()
+	case types.Array: // dest array [pageRef /XYZ v 0 0]
+		if len(x) >= 3 {
+			if i, ok := x[2].(types.Integer); ok {
+				return i.Value()
+			}
 		}
+	}
+	return -1
+}
+
+func ser(n *model.Node) string {
+	var sb strings.Builder
+	var rec func(n *model.Node)
+	rec = func(n *model.Node) {
+		if len(n.Kids) == 0 {
+			sb.WriteString("L" + vh.Hex([]byte(n.Kmin)) + "|" + vh.Hex([]byte(n.Kmax)) + "[")
+			for i, e := range leafEntries(n) {
+				if i > 0 {
+					sb.WriteByte(',')
+				}
+				sb.WriteString(vh.Hex([]byte(e.k)) + "=" + vh.Int(int64(e.v)))
+			}
+			sb.WriteByte(']')
+			return
+		}
+		if len(n.Names) != 0 {
+			sb.WriteString("X") // intermediate node with Names: outside the model
+		}
+		sb.WriteString("I" + vh.Hex([]byte(n.Kmin)) + "|" + vh.Hex([]byte(n.Kmax)) + "(")
+		for _, c := range n.Kids {
+			rec(c)
+		}
+		sb.WriteByte(')')
+	}
+	rec(n)
+	return sb.String()
+}
+
+// ---- direct oracle on the real structure ----
+
+type shape struct {
+	keys     []kv
+	problems []string
+	maxLeaf  int
+	minKids  int
+	maxKids  int
+}
+
+func inspect(root *model.Node) *shape {
+	s := &shape{minKids: 1 << 30}
+	var rec func(n *model.Node, isRoot bool) (first, last string, cnt int)
+	rec = func(n *model.Node, isRoot bool) (string, string, int) {
+		if len(n.Kids) == 0 {
+			es := leafEntries(n)
+			if len(es) > s.maxLeaf {
+				s.maxLeaf = len(es)
+			}
+			if len(es) == 0 {
+				if !isRoot {
+					s.problems = append(s.problems, "empty non-root leaf")
+				}
+				return "", "", 0
+			}
+			s.keys = append(s.keys, es...)
+			if n.Kmin != es[0].k || n.Kmax != es[len(es)-1].k {
+				s.problems = append(s.problems, fmt.Sprintf("leaf limits (%q,%q) but keys %q..%q", n.Kmin, n.Kmax, es[0].k, es[len(es)-1].k))
+			}
+			return es[0].k, es[len(es)-1].k, len(es)
+		}
+		if len(n.Kids) < s.minKids {
+			s.minKids = len(n.Kids)
+		}
+		if len(n.Kids) > s.maxKids {
+			s.maxKids = len(n.Kids)
+		}
+		first, last, cnt := "", "", 0
+		for _, c := range n.Kids {
+			f, l, k := rec(c, false)
+			if k == 0 {
+				continue
+			}
+			if cnt == 0 {
+				first = f
+			}
+			last = l
+			cnt += k
+		}
+		if cnt == 0 {
+			s.problems = append(s.problems, "intermediate node without keys")
+		} else if n.Kmin != first || n.Kmax != last {
+			s.problems = append(s.problems, fmt.Sprintf("node limits (%q,%q) but keys below %q..%q", n.Kmin, n.Kmax, first, last))
+		}
+		return first, last, cnt
+	}
+	rec(root, true)
+	for i := 1; i < len(s.keys); i++ {
+		if !(s.keys[i-1].k < s.keys[i].k) {
+			s.problems = append(s.problems, fmt.Sprintf("keys not strictly sorted: %q then %q", s.keys[i-1].k, s.keys[i].k))
+			break
+		}
+	}
+	return s
+}
+
+func sortedMap(m map[string]int) []kv {
+	out := make([]kv, 0, len(m))
+	for k, v := range m {
+		out = append(out, kv{k, v})
+	}
+	sort.Slice(out, func(i, j int) bool { return out[i].k < out[j].k })
+	return out
+}
+
+var alphabet = []string{"", "a", "aa", "ab", "b", "B", "\x00", "\xff", "a\x00", "a\x01", "a\x01\x01", "b\x01", "aa\x01",
+	"c", "d", "e", "f", "g", "prefix/common/long/a", "prefix/common/long/b", "prefix/common/long/a\x01", "prefix/common/long",
+	"\x00\x00", "\xff\xff", "\x01", "z"}
+
+type gen struct {
+	r     *vh.Run
+	ascii bool // only bytes < 0x80 (keys that the PDF string codec reads back unchanged)
+}
+
+func (g gen) key() string {
+	for {
+		k := g.key0()
+		if !g.ascii || isASCII(k) {
+			return k
+		}
+	}
+}
+
+func isASCII(k string) bool {
+	for i := 0; i < len(k); i++ {
+		if k[i] >= 0x7f || (k[i] >= 0x18 && k[i] < 0x20) { // PDFDocEncoding remaps 0x18..0x1f and >= 0x7f
+			return false
+		}
+	}
+	return true
+}
+
+func (g gen) key0() string {
+	switch x := g.r.Rand.Intn(10); {
+	case x < 7:
+		return alphabet[g.r.Rand.Intn(len(alphabet))]
+	case x < 9:
+		n := 1 + g.r.Rand.Intn(2)
+		b := make([]byte, n)
+		for i := range b {
+			b[i] = "ab\x00\x01\xff"[g.r.Rand.Intn(5)]
+		}
+		return string(b)
+	default:
+		n := g.r.Rand.Intn(6)
+		b := make([]byte, n)
+		g.r.Rand.Read(b)
+		return string(b)
+	}
+}
+
+func (g gen) sortedKeys(n int) []string {
+	set := map[string]bool{}
+	for tries := 0; len(set) < n && tries < 20*n; tries++ {
+		set[g.key()] = true
+	}
+	out := make([]string, 0, len(set))
+	for k := range set {
+		out = append(out, k)
+	}
+	sort.Strings(out)
+	return out
+}
+
+var valCounter = 100
+
+func newVal() int { valCounter++; return valCounter }
+
+// foreign (not pdfcpu-shaped) but well-formed tree: wide kids, long leaves, single-kid chains
+func (g gen) foreign(keys []string, depth int, m map[string]int) *model.Node {
+	n := &model.Node{}
+	if depth == 0 || len(keys) <= 1 || g.r.Rand.Intn(4) == 0 && len(keys) <= 7 {
+		for _, k := range keys {
+			v := newVal()
+			m[k] = v
+			n.AppendToNames(k, types.Integer(v))
+		}
+	} else {
+		parts := 1 + g.r.Rand.Intn(5)
+		if parts > len(keys) {
+			parts = len(keys)
+		}
+		cuts := map[int]bool{}
+		for len(cuts) < parts-1 {
+			cuts[1+g.r.Rand.Intn(len(keys)-1)] = true
+		}
+		var idx []int
+		for c := range cuts {
+			idx = append(idx, c)
+		}
+		sort.Ints(idx)
+		idx = append(idx, len(keys))
+		prev := 0
+		for _, c := range idx {
+			n.Kids = append(n.Kids, g.foreign(keys[prev:c], depth-1, m))
+			prev = c
+		}
+	}
+	if len(keys) > 0 {
+		n.Kmin, n.Kmax = keys[0], keys[len(keys)-1]
+	}
+	return n
+}
+
+// damage a tree (K only: the model must follow the code on malformed input too)
+func (g gen) damage(root *model.Node) {
+	var nodes []*model.Node
+	var rec func(n *model.Node)
+	rec = func(n *model.Node) {
+		nodes = append(nodes, n)
+		for _, c := range n.Kids {
+			rec(c)
+		}
+	}
+	rec(root)
+	n := nodes[g.r.Rand.Intn(len(nodes))]
+	switch g.r.Rand.Intn(4) {
+	case 0:
+		n.Kmin = g.key()
+	case 1:
+		n.Kmax = g.key()
+	case 2:
+		if len(n.Kids) >= 2 {
+			i := g.r.Rand.Intn(len(n.Kids) - 1)
+			n.Kids[i], n.Kids[i+1] = n.Kids[i+1], n.Kids[i]
+		} else {
+			n.Kmax = g.key()
+		}
+	default:
+		if len(n.Kids) == 0 {
+			n.AppendToNames(g.key(), types.Integer(newVal()))
+		} else {
+			n.Kmin = g.key()
+		}
+	}
+}
+
+type history struct {
+	g       gen
+	r       *vh.Run
+	t       *model.Node
+	m       map[string]int // shadow map; nil = oracle off (malformed start)
+	built   bool           // started from the empty tree: pdfcpu's own shape bounds apply
+	kind    string
+	log     []string
+	stopped bool
+}
+
+func (h *history) input() map[string]any {
+	return map[string]any{"start": h.kind, "ops": h.log}
+}
+
+func (h *history) fail(class, detail string) {
+	h.r.OracleFail(class, h.input(), detail)
+	h.stopped = true
+}
+
+// oracle after a step
+func (h *history) check(opClass string) {
+	if h.m == nil || h.stopped {
+		return
+	}
+	s := inspect(h.t)
+	if len(s.problems) > 0 {
+		h.fail(opClass, strings.Join(s.problems, "; ")+" tree="+h.t.String())
+		return
+	}
+	want := sortedMap(h.m)
+	if len(want) != len(s.keys) {
+		h.fail(opClass+"-content", fmt.Sprintf("tree has %d keys, map has %d", len(s.keys), len(want)))
+		return
+	}
+	for i := range want {
+		if want[i] != s.keys[i] {
+			h.fail(opClass+"-content", fmt.Sprintf("entry %d: tree (%q,%d) map (%q,%d)", i, s.keys[i].k, s.keys[i].v, want[i].k, want[i].v))
+			return
+		}
+	}
+	// lookups agree with the map, for present keys and absent neighbours
+	probe := append([]string{}, alphabet...)
+	for k := range h.m {
+		probe = append(probe, k, k+"\x00", k+"\x01")
+	}
+	for _, k := range probe {
+		o, ok := h.t.Value(k)
+		v, present := h.m[k]
+		if ok != present || (ok && objVal(o) != v) {
+			h.fail("lookup-mismatch", fmt.Sprintf("Value(%q) = %v,%v; map has %v,%v", k, o, ok, v, present))
+			return
+		}
+	}
+	kl, err := h.t.KeyList()
+	if err != nil || len(kl) != len(want) {
+		h.fail("keylist-mismatch", fmt.Sprintf("KeyList len %d err %v, want %d", len(kl), err, len(want)))
+		return
+	}
+	for i, e := range want {
+		if kl[i] != fmt.Sprintf("%s %d", e.k, e.v) {
+			h.fail("keylist-mismatch", fmt.Sprintf("KeyList[%d]=%q want %q %d", i, kl[i], e.k, e.v))
+			return
+		}
+	}
+	if h.built {
+		if s.maxLeaf > 3 || (s.maxKids > 0 && (s.minKids != 2 || s.maxKids != 2)) {
+			h.fail("shape-bound", fmt.Sprintf("maxLeaf=%d kids=%d..%d tree=%s", s.maxLeaf, s.minKids, s.maxKids, h.t.String()))
+			return
+		}
+	}
+	h.r.OracleOK()
+}
+
+func (h *history) add(rn bool, k string, v int) {
+	pre := ser(h.t)
+	var nm model.NameMap
+	if rn {
+		nm = model.NameMap{k: nil}
+	}
+	var err error
+	panicked := func() (p any) {
+		defer func() { p = recover() }()
+		err = h.t.Add(nil, k, types.Integer(v), nm, []string{"F", "UF"})
+		return nil
 	}()
-	f()
+	h.log = append(h.log, fmt.Sprintf("add rn=%v %q %d", rn, k, v))
+	if panicked != nil || err != nil {
+		h.r.Case("add", []string{vh.Bool(rn), pre, vh.Hex([]byte(k)), vh.Int(int64(v))}, fmt.Sprintf("panic-or-error:%v %v", panicked, err))
+		h.fail("add-panic-or-error", fmt.Sprintf("%v %v", panicked, err))
+		h.stopped = true
+		return
+	}
+	h.r.Case("add", []string{vh.Bool(rn), pre, vh.Hex([]byte(k)), vh.Int(int64(v))}, ser(h.t))
+	class := "add-breaks-invariant"
+	if h.m != nil {
+		_, present := h.m[k]
+		if !present {
+			h.m[k] = v
+			h.r.Count("op:add-new")
+		} else if !rn {
+			h.r.Count("op:add-duplicate-kept")
+		} else {
+			// rename mode: the name is stored under the first free k+"\x01"*j
+			kk := k
+			for {
+				if _, p := h.m[kk]; !p {
+					break
+				}
+				kk += "\x01"
+			}
+			h.m[kk] = v
+			class = "add-rename-dup-crosses-leaf"
+			h.r.Count("op:add-duplicate-renamed")
+		}
+	}
+	h.check(class)
+}
+
+func (h *history) remove(k string) {
+	pre := ser(h.t)
+	wasEmptyLeaf := len(h.t.Kids) == 0 && len(h.t.Names) == 0
+	var empty, ok bool
+	var err error
+	panicked := func() (p any) {
+		defer func() { p = recover() }()
+		empty, ok, err = h.t.Remove(nil, k)
+		return nil
+	}()
+	h.log = append(h.log, fmt.Sprintf("remove %q", k))
+	if panicked != nil {
+		h.r.Case("remove", []string{pre, vh.Hex([]byte(k))}, "panic")
+		if h.m != nil {
+			if wasEmptyLeaf {
+				h.fail("remove-on-empty-tree-panic", fmt.Sprint(panicked))
+			} else {
+				h.fail("remove-panic", fmt.Sprint(panicked))
+			}
+		}
+		h.stopped = true
+		h.r.Count("op:remove-panic")
+		return
+	}
+	if err != nil {
+		h.r.Case("remove", []string{pre, vh.Hex([]byte(k))}, "error")
+		h.fail("remove-error", err.Error())
+		return
+	}
+	h.r.Case("remove", []string{pre, vh.Hex([]byte(k))}, ser(h.t)+" "+vh.Bool(empty)+" "+vh.Bool(ok))
+	if h.m != nil {
+		_, present := h.m[k]
+		delete(h.m, k)
+		if ok != present {
+			h.fail("remove-ok-flag", fmt.Sprintf("ok=%v but key present=%v", ok, present))
+			return
+		}
+		// (empty is only meaningful when something was removed: a miss on a leaf returns false)
+		if ok && empty != (len(h.m) == 0) {
+			h.fail("remove-empty-flag", fmt.Sprintf("empty=%v but %d keys remain", empty, len(h.m)))
+			return
+		}
+		if present {
+			h.r.Count("op:remove-present")
+			if len(h.m) == 0 {
+				h.r.Count("op:remove-last-key")
+			}
+		} else {
+			h.r.Count("op:remove-missing")
+		}
+	}
+	h.check("remove-breaks-invariant")
+}
+
+func (h *history) probes() {
+	for i := 0; i < 2; i++ {
+		k := h.g.key()
+		if h.m != nil && len(h.m) > 0 && h.r.Rand.Intn(2) == 0 {
+			for kk := range sortedMapIdx(h.m, h.r.Rand.Intn(len(h.m))) {
+				k = kk
+			}
+		}
+		o, ok := h.t.Value(k)
+		res := "none"
+		if ok {
+			res = "some:" + vh.Int(int64(objVal(o)))
+		}
+		h.r.Case("value", []string{ser(h.t), vh.Hex([]byte(k))}, res)
+	}
+	var sb []string
+	s := inspect(h.t)
+	for _, e := range s.keys {
+		sb = append(sb, vh.Hex([]byte(e.k))+"="+vh.Int(int64(e.v)))
+	}
+	h.r.Case("keys", []string{ser(h.t)}, strings.Join(sb, ","))
+}
+
+func sortedMapIdx(m map[string]int, i int) map[string]bool {
+	l := sortedMap(m)
+	return map[string]bool{l[i].k: true}
+}
+
+func (h *history) steps(n int) {
+	for i := 0; i < n && !h.stopped; i++ {
+		x := h.r.Rand.Intn(100)
+		present := ""
+		if h.m != nil && len(h.m) > 0 {
+			present = sortedMap(h.m)[h.r.Rand.Intn(len(h.m))].k
+		} else if h.m == nil {
+			if s := inspect(h.t); len(s.keys) > 0 {
+				present = s.keys[h.r.Rand.Intn(len(s.keys))].k
+			}
+		}
+		switch {
+		case x < 42:
+			h.add(false, h.g.key(), newVal())
+		case x < 47:
+			h.add(false, present, newVal()) // duplicate
+		case x < 55:
+			h.add(true, h.g.key(), newVal())
+		case x < 60:
+			h.add(true, present, newVal()) // duplicate, rename mode
+		case x < 85:
+			h.remove(present)
+		default:
+			h.remove(h.g.key())
+		}
+		if !h.stopped && (i%3 == 0 || h.r.Thorough()) {
+			h.probes()
+		}
+	}
 }
 
 func main() {
-	t := &model.Node{}
-	try(func() { e, ok, err := t.Remove(nil, ""); fmt.Println("remove '' on fresh:", e, ok, err) })
-	t = &model.Node{}
-	t.Add(nil, "a", types.Integer(1), nil, nil)
-	try(func() { e, ok, err := t.Remove(nil, "a"); fmt.Println(e, ok, err, t.String()) })
-	try(func() { e, ok, err := t.Remove(nil, ""); fmt.Println("remove '' on emptied:", e, ok, err) })
+	api.DisableConfigDir()
+	r := vh.Start("C39")
+	defer r.Finish()
+	g := gen{r: r}
 
-	t = &model.Node{}
-	for i, k := range []string{"a", "b", "b", "c", "b"} {
-		m := model.NameMap{k: nil}
-		err := t.Add(nil, k, types.Integer(i), m, []string{"F"})
-		fmt.Printf("add %q: %v -> %q\n", k, err, t.String())
+	// string order used by the model = Go's
+	for _, a := range alphabet {
+		for _, b := range alphabet {
+			r.Case("less", []string{vh.Hex([]byte(a)), vh.Hex([]byte(b))}, vh.Bool(a < b))
+		}
 	}
-	l, _ := t.KeyList()
-	fmt.Printf("%q\n", l)
+
+	// fixed regression histories (the two documented shapes + root handling)
+	fixed := [][]string{
+		{"-"},
+		{"+a", "-a", "-"},
+		{"+a", "+b", "+c", "+d", "-a", "-b", "-c", "-d", "+a"},
+		{"*a", "*b", "*b", "*c", "*b"},
+		{"+a", "*a", "+a\x00", "+0", "*a"},
+		{"+a", "+b", "+c", "+d", "+e", "+f", "+g", "-d", "-c", "-a", "-b", "-g", "-f", "-e", "-e"},
+	}
+	for _, ops := range fixed {
+		h := &history{g: g, r: r, t: &model.Node{}, m: map[string]int{}, built: true, kind: "empty"}
+		for _, o := range ops {
+			if h.stopped {
+				break
+			}
+			switch o[0] {
+			case '+':
+				h.add(false, o[1:], newVal())
+			case '*':
+				h.add(true, o[1:], newVal())
+			case '-':
+				h.remove(o[1:])
+			}
+			if !h.stopped {
+				h.probes()
+			}
+		}
+	}
+
+	nh := r.Pick(260, 4000)
+	for i := 0; i < nh; i++ {
+		g := gen{r: r, ascii: i%4 == 0 || i%8 == 2}
+		h := &history{g: g, r: r}
+		switch i % 4 {
+		case 0, 1:
+			h.t, h.m, h.built, h.kind = &model.Node{}, map[string]int{}, true, "empty"
+			if i%8 == 1 { // pre-built multi-level pdfcpu tree
+				for _, k := range g.sortedKeys(6 + r.Rand.Intn(20)) {
+					h.add(false, k, newVal())
+				}
+				h.kind = "empty+bulk"
+			}
+		case 2:
+			h.m = map[string]int{}
+			h.t = g.foreign(g.sortedKeys(1+r.Rand.Intn(24)), 1+r.Rand.Intn(3), h.m)
+			h.kind = "foreign:" + ser(h.t)
+		default:
+			mm := map[string]int{}
+			h.t = g.foreign(g.sortedKeys(1+r.Rand.Intn(16)), 1+r.Rand.Intn(3), mm)
+			g.damage(h.t)
+			h.kind = "malformed:" + ser(h.t)
+		}
+		r.Count("start:" + strings.SplitN(h.kind, ":", 2)[0])
+		n := 60
+		if r.Thorough() && i%5 == 0 {
+			n = 200
+		}
+		h.steps(n)
+		if h.m != nil && !h.stopped && g.ascii {
+			roundTrip(r, h)
+		}
+	}
 }
+
+// ---- write / read round trip of the tree as the Dests name tree of a generated document ----
+
+func roundTrip(r *vh.Run, h *history) {
+	defer func() {
+		if p := recover(); p != nil {
+			r.OracleFail("roundtrip-panic", h.input(), fmt.Sprint(p)+" "+firstLines(string(debug.Stack()), 24))
+		}
+	}()
+	want := sortedMap(h.m)
+	if len(want) == 0 {
+		return
+	}
+	xrt, err := pdfcpu.CreateDemoXRef()
+	if err != nil {
+		r.OracleFail("roundtrip-setup", nil, err.Error())
+		return
+	}
+	mb := types.RectForFormat("A4")
+	p := model.Page{MediaBox: mb, Fm: model.FontMap{}, Buf: new(bytes.Buffer)}
+	rootDict, err := xrt.Catalog()
+	if err != nil {
+		r.OracleFail("roundtrip-setup", nil, err.Error())
+		return
+	}
+	if err := pdfcpu.AddPageTreeWithSamplePage(xrt, rootDict, p); err != nil {
+		r.OracleFail("roundtrip-setup", nil, err.Error())
+		return
+	}
+	ctx := pdfcpu.CreateContext(xrt, model.NewDefaultConfiguration())
+	pageRef, err := firstPageRef(ctx)
+	if err != nil {
+		r.OracleFail("roundtrip-setup", nil, err.Error())
+		return
+	}
+	// rebuild the same shape with destination arrays as values
+	var clone func(n *model.Node) *model.Node
+	clone = func(n *model.Node) *model.Node {
+		c := &model.Node{Kmin: n.Kmin, Kmax: n.Kmax}
+		for _, e := range leafEntries(n) {
+			c.AppendToNames(e.k, types.Array{*pageRef, types.Name("XYZ"), types.Integer(e.v), types.Integer(0), types.Integer(0)})
+		}
+		if len(n.Kids) > 0 {
+			c.Names = nil
+		}
+		for _, k := range n.Kids {
+			c.Kids = append(c.Kids, clone(k))
+		}
+		return c
+	}
+	tree := clone(h.t)
+	before := ser(tree)
+	if err := ctx.LocateNameTree("Dests", true); err != nil {
+		r.OracleFail("roundtrip-setup", nil, err.Error())
+		return
+	}
+	tree.D = ctx.Names["Dests"].D
+	ctx.Names["Dests"] = tree
+	var buf bytes.Buffer
+	if err := api.WriteContext(ctx, &buf); err != nil {
+		r.OracleFail("roundtrip-write", h.input(), err.Error())
+		return
+	}
+	conf := model.NewDefaultConfiguration()
+	conf.ValidationMode = model.ValidationStrict
+	ctx2, err := api.ReadValidateAndOptimize(bytes.NewReader(buf.Bytes()), conf)
+	if err != nil {
+		class := "roundtrip-read"
+		if _, has := h.m[""]; has && len(tree.Kids) > 0 {
+			// validateNameTreeDictNamesEntry / validateNameTreeKids take "" as "no first key yet"
+			class = "roundtrip-empty-key-as-limit"
+		}
+		r.OracleFail(class, h.input(), err.Error()+" tree="+before)
+		return
+	}
+	t2 := ctx2.Names["Dests"]
+	if t2 == nil {
+		r.OracleFail("roundtrip-lost", h.input(), "no Dests tree after reading")
+		return
+	}
+	after := ser(t2)
+	// the root's limits are not written (root has no Limits entry); compare everything else
+	if stripRootLimits(before) != stripRootLimits(after) {
+		r.OracleFail("roundtrip-differs", h.input(), "before="+before+" after="+after)
+		return
+	}
+	r.Count("roundtrip:ok")
+	r.OracleOK()
+}
+
+func stripRootLimits(s string) string {
+	i := strings.IndexAny(s, "[(")
+	if i < 0 {
+		return s
+	}
+	return s[:1] + s[i:]
+}
+
+func firstPageRef(ctx *model.Context) (*types.IndirectRef, error) {
+	if err := ctx.EnsurePageCount(); err != nil {
+		return nil, err
+	}
+	_, ir, _, err := ctx.PageDict(1, false)
+	return ir, err
+}
+
+func firstLines(s string, n int) string {
+	l := strings.Split(s, "\n")
+	if len(l) > n {
+		l = l[:n]
+	}
+	return strings.Join(l, " | ")
+}
+
+var _ = os.Exit
